@@ -320,13 +320,26 @@ func run(prop string, spec *PropSpec, tier, repo, verif, onlyRule, replayKey str
 		return 0
 	}
 
+	nNonTrivial := 0
+	for _, o := range all {
+		if !o.Trivial {
+			nNonTrivial++
+		}
+	}
 	// samples: a few obligations of every rule, non-discharged first
 	var samples []any
 	perRule := map[string]int{}
 	sorted := append([]*Obligation(nil), all...)
-	sort.SliceStable(sorted, func(i, j int) bool {
-		return (sorted[i].Status != Discharged) && (sorted[j].Status == Discharged)
-	})
+	rank := func(o *Obligation) int {
+		switch {
+		case o.Status != Discharged:
+			return 0
+		case !o.Trivial:
+			return 1
+		}
+		return 2
+	}
+	sort.SliceStable(sorted, func(i, j int) bool { return rank(sorted[i]) < rank(sorted[j]) })
 	for _, o := range sorted {
 		if perRule[o.Rule] >= 4 {
 			continue
@@ -346,8 +359,9 @@ func run(prop string, spec *PropSpec, tier, repo, verif, onlyRule, replayKey str
 			"known_findings":      nKnown,
 			"known_finding_keys":  knownHit,
 			"evaluations":         len(all),
-			"distinct_nontrivial": len(all),
-			"rule":                "one obligation per rule instance (rule template with its slots filled from the repository: an opcode, a native method, a struct field, a call site, a lock region); keys are rule/construct and distinct by construction (a duplicate key aborts the run)",
+			"distinct_nontrivial": nNonTrivial,
+			"trivial":             len(all) - nNonTrivial,
+			"rule":                "one obligation per rule instance (rule template with its slots filled from the repository: an opcode, a native method, a struct field, a call site, a lock region); keys are rule/construct and distinct by construction (a duplicate key aborts the run). An obligation is counted as non-trivial when the unit it names actually contains the construct the rule is about; vacuous discharges (a function that never calls itself under the self-recursion rule, a native that applies no accessor to the argument, an emission with no operator-token test in scope) are counted under `trivial`",
 			"rules":               revs,
 			"samples":             samples,
 			"build_configs":       cfgNames,
